@@ -14,6 +14,7 @@
       are not distinguished (neither does the C code).
     * Root order has no meaning; a detached item is appended to the list of roots. *)
 From CJ Require Import Base Dbl Heap Forest.
+From CJ.gen Require Import Constants.
 From stdpp Require Import gmap.
 Local Open Scope Z_scope.
 
@@ -182,6 +183,38 @@ Definition spec_delete_index (F : forest) (array : ptr) (which : Z) : forest :=
 
 (** a successful constructor call: a new root without children *)
 Definition spec_create (F : forest) (id : positive) (d : rdata) : forest := F ++ [T id d []].
+
+(** * objects: keys *)
+
+(** the data of an item that is (re)keyed: new key block, new type word *)
+Definition rd_set_key_type (d : rdata) (key : ptr) (ty : Z) : rdata :=
+  mkRD ty (rd_vstr d) (rd_vint d) (rd_vdbl d) key (rd_ref d).
+Definition rd_const_key (d : rdata) (key : positive) : rdata :=
+  rd_set_key_type d (Some key) (Z.lor (rd_type d) c_cJSON_StringIsConst).
+Definition rd_owned_key (d : rdata) (key : positive) : rdata :=
+  rd_set_key_type d (Some key) (Z.land (rd_type d) (Z.lnot c_cJSON_StringIsConst)).
+
+(** add_item_to_object / cJSON_AddItemToObject[CS]: the detached root [item] gets the key
+    [string] (constant: the caller's block itself; otherwise the fresh copy [copy] that
+    cJSON_strdup returned, [None] = allocation failure) and is appended to [object] *)
+Definition spec_add_to_object (F : forest) (object string item : ptr) (constant_key : bool)
+    (copy : ptr) : forest * bool :=
+  match object, string, item with
+  | Some p, Some sb, Some x =>
+      if decide (p = x) then (F, false) else
+      match find_root x F with
+      | Some tx =>
+          if constant_key then
+            spec_add_to_array (set_data x (rd_const_key (tdata tx) sb) F) object item
+          else
+            match copy with
+            | Some nk => spec_add_to_array (set_data x (rd_owned_key (tdata tx) nk) F) object item
+            | None => (F, false)
+            end
+      | None => (F, false)
+      end
+  | _, _, _ => (F, false)
+  end.
 
 (** * the documented ownership rules, as predicates on the abstract state *)
 
